@@ -97,6 +97,13 @@ func Unmarshal(hash string, v interface{}) error {
 				Msg:    "prefix not found",
 			}
 		}
+	} else if tree.Prefix != nil {
+		return &UnmarshalTypeError{
+			Value:  tree.Prefix.Type().String(),
+			Type:   reflect.TypeOf(v),
+			Offset: int(tree.Prefix.End()),
+			Msg:    "excessive prefix",
+		}
 	}
 	for _, fi := range ti.Fields {
 		if !fi.Opts.Group && group != nil {
